@@ -97,4 +97,7 @@ def run(ctx):
     res = core.run_shards(shard, args)
     starved = [k for k, v in res.notes.get('accepted_per_module', {}).items() if v < n * 0.2]
     res.notes['modules_with_low_acceptance'] = starved
+    # coverage-guided complement (atheris): accepted text whose result is not a fixed point; decided by prop()
+    core.fuzz_campaign(ctx, 'c02', ctx.q(10, 300), lambda nm: gen.pool(nm),
+                       lambda c: prop({'mod': c['mod'], 'x': core.enc(c['x']), 'opts': {}, 'clock': None}, res), res)
     return core.finish(ctx, res, LEVEL, RULE, ASSUME, SUBS)
